@@ -1,5 +1,6 @@
-(* HistPatProofs.v — shared Pattern objects: the state of an annotation object, and full transparency
-   (including the type a ParseError names) when every Pattern object is used at positions of one type. *)
+(* HistPatProofs.v — the PRE-FIX variant of the machine (shared_pat = true: parsers re-target the shared Pattern
+   object, as /repo did before fix commit 38c6a1a): the state of an annotation object, and full transparency
+   (including the type a ParseError names) only when every Pattern object is used at positions of one type. *)
 From DW Require Import PyStr StrConv CharFacts StateModel HistMemo HistMemoProofs HistValueModel HistValueProofs.
 From Coq Require Import List ZArith Bool Lia.
 Import ListNotations.
@@ -74,11 +75,11 @@ Section PatProofs.
   Variable mk : dkind * xv -> dkind * xv -> bool.
 
   Notation am' := (am iso fromts).
-  Notation step' := (hstep conv0 dumpv iso fromts strp mk).
-  Notation run' := (hrun conv0 dumpv iso fromts strp mk).
-  Notation do_load' := (do_load conv0 iso fromts strp mk).
+  Notation step' := (hstep true conv0 dumpv iso fromts strp mk).
+  Notation run' := (hrun true conv0 dumpv iso fromts strp mk).
+  Notation do_load' := (do_load true conv0 iso fromts strp mk).
   Notation pure_load' := (pure_load conv0 iso fromts strp mk).
-  Notation pure_hop' := (pure_hop conv0 dumpv iso fromts strp mk).
+  Notation pure_hop' := (pure_hop true conv0 dumpv iso fromts strp mk).
   Notation HInv' := (HInv iso fromts mk).
 
   Hypothesis Hfac : factors am' mk am_cacheable.
@@ -98,7 +99,7 @@ Section PatProofs.
   Lemma do_load_ann s d doc :
     HInv' s -> AnnInv s -> find_def (h_defs s) (xc_id d) = Some d -> AnnInv (fst (do_load' s d doc)).
   Proof.
-    intros [Hg Hm] [A1 A2] Hd. unfold do_load, gen_load.
+    intros [Hg Hm] [A1 A2] Hd. unfold do_load, gen_load, gen_ann. cbv iota.
     assert (Hpos : forall p, In p (positions_f (xc_fields d)) -> In p (pat_positions (h_defs s))).
     { intros p Hp. apply pat_positions_in. exists d. split; [exact (find_def_in _ _ _ Hd) | exact Hp]. }
     (* a state whose generated table changes at class d only, with annotation view ann' *)
@@ -165,7 +166,7 @@ Section PatProofs.
     HInv' s -> AnnInv s -> pat_consistent_l (pat_positions (h_defs s)) = true ->
     find_def (h_defs s) (xc_id d) = Some d -> xc_v1 d = false ->
     forall f obj fmt k, In f (xc_fields d) -> xf_ty f = FPat obj fmt k ->
-                        ann_name (ann_at s d) obj = own_name d obj.
+                        ann_name (ann_at true s d) obj = own_name d obj.
   Proof.
     intros HI [A1 A2] HC Hd V f obj fmt k Hin E.
     assert (Hpos : forall p, In p (positions_f (xc_fields d)) -> In p (pat_positions (h_defs s))).
@@ -175,7 +176,7 @@ Section PatProofs.
     { unfold own_name, ann_name. destruct (retarget_sets (xc_fields d) [] f obj fmt k Hin E) as [k1 H1]. rewrite H1.
       destruct (retarget_spec1 _ _ _ _ H1) as [H2 | H2]; [| discriminate H2].
       rewrite (consistent_unique _ obj k1 k HC (Hpos _ H2) Pk). reflexivity. }
-    rewrite Own. unfold ann_at, ann_name. destruct (g_load (gen_of s (xc_id d))) as [lg|] eqn:EL.
+    rewrite Own. unfold ann_at, ann_name, gen_ann. cbv iota. destruct (g_load (gen_of s (xc_id d))) as [lg|] eqn:EL.
     - unfold gen_of in EL. destruct (assoc_n (xc_id d) (h_gen s)) as [g|] eqn:EG; [| discriminate EL].
       destruct (A2 (xc_id d) g lg d EG EL Hd V f obj fmt k Hin E) as [k1 H1]. rewrite H1.
       rewrite (consistent_unique _ obj k1 k HC (A1 _ _ H1) Pk). reflexivity.
@@ -193,9 +194,9 @@ Section PatProofs.
     - destruct (find_def (h_defs s) (xc_id d)); reflexivity.
     - destruct (find_def (h_defs s) c) as [d|] eqn:E; [| reflexivity].
       pose proof (find_def_self _ _ _ E) as Hd.
-      destruct (do_load_spec conv0 iso fromts strp mk Hfac s d doc HI Hd) as [E1 _]. rewrite E1.
+      destruct (do_load_spec true conv0 iso fromts strp mk Hfac s d doc HI Hd) as [E1 _]. rewrite E1.
       destruct (xc_v1 d) eqn:V; [unfold pure_load; rewrite V; reflexivity |].
-      apply pure_load_agree. intros f obj fmt k Hin Ef. exact (ann_at_own s d HI HA HC Hd V f obj fmt k Hin Ef).
+      apply pure_load_agree. intros f obj fmt k Hin Ef. unfold pat_view. cbv iota beta. exact (ann_at_own s d HI HA HC Hd V f obj fmt k Hin Ef).
     - destruct (find_def (h_defs s) c) as [d|] eqn:E; [| reflexivity].
       destruct (do_dump_spec dumpv iso fromts mk s d inst HI (find_def_self _ _ _ E)) as [E1 _]. exact E1.
   Qed.
@@ -233,7 +234,7 @@ Section PatProofs.
     intro HC. pose proof (consistent_run h o HC) as C1.
     destruct (hrun_both h hinit (HInv_init iso fromts mk) AnnInv_init) as [I1 A1].
     destruct (hrun_both (hdefs_all h) hinit (HInv_init iso fromts mk) AnnInv_init) as [I2 A2].
-    pose proof (hrun_defs_all conv0 dumpv iso fromts strp mk h hinit hinit eq_refl) as ED.
+    pose proof (hrun_defs_all true conv0 dumpv iso fromts strp mk h hinit hinit eq_refl) as ED.
     rewrite (hstep_out_full _ o I1 A1 C1). rewrite ED in C1. rewrite (hstep_out_full _ o I2 A2 C1).
     rewrite ED. reflexivity.
   Qed.
